@@ -71,6 +71,7 @@ Inductive hevent :=
 | EReq (c : call) (mt : N) (wok : bool)   (* `req := <-t.requests`; mt = request type; wok = WriteFcall succeeded *)
 | EResp (t : tag) (r : reply)             (* `b := <-responses`: the reader goroutine decoded a frame *)
 | EReadFatal                              (* the reader goroutine met a fatal read error: t.close() *)
+| EReadRetry                              (* ReadFcall failed with a timeout-class error (net.Error, Timeout/Temporary) *)
 | ECtxDone                                (* the session context t.ctx ended *)
 | EExit                                   (* the loop takes `<-t.shutdown` or `<-t.ctx.Done()` and returns *)
 | ECancel (c : call).                     (* call c's own context ended (not seen by the loop at all) *)
@@ -124,6 +125,14 @@ Definition hstep (st : hstate) (ev : hevent) : hstate * list hout :=
   | EReadFatal =>
       ({| h_out := h_out st; h_sel := h_sel st; h_shut := true; h_ctx := h_ctx st;
           h_closed := h_closed st; h_panicked := h_panicked st |}, [])
+  | EReadRetry =>
+      (* `continue loop` - unless the session is over: then the reader returns, i.e. t.close().
+         (ReadFcall returns t.ctx.Err() at once when t.ctx is done; for a context whose
+         deadline passed that error is itself a timeout-class error) *)
+      if reader_retry_stops_when_done && (h_ctx st || h_closed st) then
+        ({| h_out := h_out st; h_sel := h_sel st; h_shut := true; h_ctx := h_ctx st;
+            h_closed := h_closed st; h_panicked := h_panicked st |}, [])
+      else (st, [])
   | ECtxDone =>
       ({| h_out := h_out st; h_sel := h_sel st; h_shut := h_shut st; h_ctx := true;
           h_closed := h_closed st; h_panicked := h_panicked st |}, [])
